@@ -1,6 +1,6 @@
 #!/bin/sh
 # usage: try_mutant.sh <patch.diff> <property id> [tier]   -- apply to /repo, run the check, undo.
-P="$1"; ID="$2"; TIER="${3:-quick}"
+P="$(realpath "$1")"; ID="$2"; TIER="${3:-quick}"
 cd /repo || exit 2
 git diff --quiet || { echo "/repo not clean" >&2; exit 2; }
 git apply "$P" || { echo "patch does not apply" >&2; exit 2; }
